@@ -516,6 +516,53 @@ fn failed_server_logins(seed: u64, rep: &Report) -> Result<(), String> {
     Ok(())
 }
 
+/// A request that is refused at checkout for a reason other than a busy pool (a shard the pool does
+/// not have, selected through a shard_id comment): the client stays connected and idle, and is listed so.
+fn refused_at_checkout_then_idle(seed: u64, rep: &Report) -> Result<(), String> {
+    let mut rng = Rng::new(seed);
+    let mut cell = crate::cell::Cell::new();
+    let mut pool = crate::pgcat::PoolCfg::new("db");
+    for s in 0..2 {
+        let m = cell.add_mock(&format!("db.s{}.primary.0", s));
+        pool.shards.push(crate::pgcat::ShardCfg { id: s.to_string(), database: format!("db{}", s), servers: vec![cell.server(m, "primary")], mirrors: vec![] });
+    }
+    pool.users.push(crate::pgcat::UserCfg::new(USER, PASS, 2));
+    pool.set("query_parser_enabled", "true");
+    pool.set("shard_id_regex", "'/\\* shard_id: (\\d+) \\*/'");
+    let mut cfg = crate::pgcat::Cfg::new();
+    cfg.pools.push(pool);
+    cell.start_pgcat(&cfg, &StartOpts::default()).map_err(|e| format!("start: {:?}", e))?;
+    let addr = cell.addr();
+    let mut adm = cell.pg().admin().map_err(|e| format!("admin: {}", e))?;
+    let mut c = Conn::connect(&addr, &StartupOpts::new(USER, "db", PASS).app("rs")).map_err(|e| e.to_string())?;
+    let _ = c.query(&format!("/* shard_id: 1 */ SELECT 1 {}", tag("rs", "rs.q0", "rows=1")), 5000);
+    let bad = 2 + rng.below(7);
+    let r = c.query(&format!("/* shard_id: {} */ SELECT 1 {}", bad, tag("rs", "rs.q1", "rows=1")), 5000);
+    let refused = match &r {
+        Ok(m) => crate::wire::first_error(m).is_some(),
+        Err(_) => true,
+    };
+    sleep_ms(150);
+    rep.count("refused_at_checkout_scenarios", 1);
+    if refused && r.is_ok() {
+        let pid = cid_str(c.pid);
+        let clients = admin_rows(&mut adm, "SHOW CLIENTS")?;
+        let me: Vec<&BTreeMap<String, String>> = clients.iter().filter(|r| r.get("client_id").map(|x| x == &pid).unwrap_or(false) || r.get("application_name").map(|a| a == "rs").unwrap_or(false)).collect();
+        let pools = admin_rows(&mut adm, "SHOW POOLS")?;
+        let waiting: i64 = pools.iter().filter(|r| r.get("database").map(|d| d.as_str()) == Some("db")).map(|r| num(r, "cl_waiting")).sum();
+        let state = me.first().and_then(|r| r.get("state").cloned()).unwrap_or_default();
+        if waiting != 0 || (!state.is_empty() && state != "idle") {
+            rep.violation(
+                "C18|idle_client_listed_as_waiting_after_refused_checkout",
+                &format!("a client whose request was refused (shard {} does not exist) is connected and idle; SHOW CLIENTS says state={:?}, SHOW POOLS cl_waiting={}", bad, state, waiting),
+                json!({"seed": seed}),
+            );
+        }
+    }
+    c.terminate();
+    Ok(())
+}
+
 pub fn run(tier: &str) -> i32 {
     let rep = Report::new(
         "C18",
@@ -536,6 +583,8 @@ pub fn run(tier: &str) -> i32 {
             across_stats_period(seeds[i] ^ 0x15, &rep)
         } else if (i - n_long) % 8 == 5 {
             failed_server_logins(seeds[i - n_long], &rep)
+        } else if (i - n_long) % 8 == 6 {
+            refused_at_checkout_then_idle(seeds[i - n_long], &rep)
         } else {
             scenario(seeds[i - n_long], &rep)
         };
